@@ -273,6 +273,8 @@ def run(chk):
     chk.props("theories/Props/C06.v", THEOREMS)
     rng = chk.rng
     quick = chk.tier == "quick"
+    if not quick:
+        chk.coqchk(["Ford.Props.C06"])
     R = Runner(chk)
     t0 = time.time()
     # 1. corpus: the recorded witnesses and saved cases
